@@ -17,9 +17,12 @@ var r *hxlib.Run
 
 func emit(c Case) *Exec {
 	e := Emit(r, c, true, false)
-	if e.Ref.CancelBeforeAdd > 0 || e.Ref.CancelAtExpiry > 0 {
+	if e.Ref.CancelBeforeAdd > 0 || e.Ref.CancelAtExpiry > 0 || e.Ref.CancelInPass > 0 {
 		r.NonTrivial(c.Key())
 	}
+	r.CountN(c.Sched+":cancel-inside-an-expiry-pass", e.Ref.CancelInPass)
+	r.CountN(c.Sched+":cancel-between-commit-and-send-of-a-periodic-timer", e.Ref.CancelInFlight)
+	r.CountN(c.Sched+":client-op-inside-an-expiry-pass", e.Ref.ClientInPass)
 	r.CountN(c.Sched+":cancel-before-start-was-handled", e.Ref.CancelBeforeAdd)
 	r.CountN(c.Sched+":cancel-meeting-expiry-tick", e.Ref.CancelAtExpiry)
 	r.CountN(c.Sched+":deliveries", e.Ref.Deliveries)
@@ -163,6 +166,39 @@ func main() {
 		_ = si
 	}
 	r.CountN("enumerated-orders", n)
+	// client calls INSIDE an expiry pass: every placement of small sets of client ops at the schedule points
+	// of a tick on which several timers are due
+	nf := 0
+	for _, sc := range fineScenarios() {
+		sets := sc.clients
+		if r.Thorough() {
+			sets = append(append([][]Op{}, sets...), sc.big...)
+		}
+		for _, sched := range []string{"wheel", "heap"} {
+			for _, pos := range []uint32{0, 250, 1<<32 - 3} {
+				if sched == "heap" && pos != 0 {
+					continue
+				}
+				for _, cl := range sets {
+					placements(cl, sc.slots, func(sub [][]Op) {
+						c := Case{Sched: sched, Pos: pos, Time: 50}
+						c.Ops = append(append([]Op{}, sc.prefix...), Op{K: "ftick", A: 1, Sub: sub})
+						c.Ops = append(c.Ops, sc.epilogue...)
+						if nf%997 == 0 {
+							r.Sample(c)
+						}
+						nf++
+						e := emit(c)
+						if e.Ref.CancelInPass > 0 {
+							r.Count("fine:" + sc.name + ":case-with-cancel-inside-pass")
+						}
+					})
+				}
+			}
+		}
+		r.Count("fine-scenarios")
+	}
+	r.CountN("fine-placements", nf)
 	// random longer histories under random worker schedules
 	for k := 0; k < r.Scale(1500, 40000); k++ {
 		sched := "wheel"
@@ -189,8 +225,27 @@ func main() {
 				c.Ops = append(c.Ops, Op{K: "add"})
 			case x < 15:
 				c.Ops = append(c.Ops, Op{K: "del"})
-			case x < 18:
+			case x < 16:
 				c.Ops = append(c.Ops, Op{K: "advance", A: int64(R.Pick(0, 1, 1, 1, 2, 3, 254, 256))})
+			case x < 18:
+				ft := Op{K: "ftick", A: 1, Sub: make([][]Op, 6)}
+				for j := R.Range(1, 3); j > 0 && started > 0; j-- {
+					k := R.Intn(6)
+					switch R.Intn(5) {
+					case 0:
+						if started < 12 {
+							ft.Sub[k] = append(ft.Sub[k], Op{K: "after", A: int64(R.Pick(0, 1, 2))})
+							started++
+							adds++
+						}
+					case 1:
+						ft.Sub[k] = append(ft.Sub[k], Op{K: "size"})
+					default:
+						ft.Sub[k] = append(ft.Sub[k], Op{K: "cancel", A: int64(R.Range(1, started))})
+						dels++
+					}
+				}
+				c.Ops = append(c.Ops, ft)
 			case x < 19:
 				c.Ops = append(c.Ops, Op{K: "size"})
 			default:
